@@ -181,7 +181,11 @@ STEP_PATTERNS = [
 USE_NODESET = ["@x", "@y", "@z", "@*", ".", "text()", "b", "*", "*/@x", "..", "../@x", "b|c", ".//text()", "@x|@y",
                "a/b", "*/text()", "../@*", "comment()", "following-sibling::*[1]/@x", "ancestor::*/@y"]
 USE_STRING = ["string(@x)", "concat(@x,'-',@y)", "name()", "substring(.,1,1)", "'k'", "normalize-space(.)",
-              "local-name(..)", "substring-before(concat(@x,' '),' ')"]
+              "local-name(..)", "substring-before(concat(@x,' '),' ')",
+              # use expressions that resolve a QName of their own while the key table is being built (the repaired
+              # defect 99f37c8: the name of the key being looked up was held in a scratch QName these overwrite)
+              "format-number(count(*),'0','p:df')", "format-number(string-length(@x),'00','q:df')",
+              "concat(@x,function-available('p:nofn'))", "concat(name(),element-available('q:none'))"]
 USE_OTHER = ["count(*)", "string-length(@x)", "count(@*)", "boolean(@x)", "@x='1'", "number(@x)", "count(ancestor::*)"]
 # use expressions that read the context position/size: (expression, the same with position() = last() = 1 as XSLT 12.2
 # defines it, for the brute force).  Former finding K-C15-2 (empty context node list) is repaired.
@@ -364,7 +368,7 @@ def gen_probes(ctx, c, tables):
 # stylesheets
 
 def doc_vars(c):
-    s = '<xsl:variable name="d0" select="/"/>'
+    s = '<xsl:decimal-format name="p:df" NaN="nan"/><xsl:variable name="d0" select="/"/>'
     for i in range(1, len(c["docs"])):
         s += '<xsl:variable name="d%d" select="document(\'doc%d.xml\')"/>' % (i, i)
     return s
